@@ -117,6 +117,8 @@ type Interp struct {
 	nAsserts   int64
 	symFmtInts bool
 	errFmt     int
+	atomicW    int
+	sharedAtomic int
 	symParts   []Str
 	curInitPkg *ssa.Package
 }
@@ -363,6 +365,7 @@ func (in *Interp) global(g *ssa.Global) *Obj {
 		panic(inconclusive("global of uninitialised package: " + g.String()))
 	}
 	o := in.allocType(g.Type().(*types.Pointer).Elem(), "global "+g.String())
+	o.epoch = 0 // package-level state is shared however late it is first touched
 	in.globals[g] = o
 	return o
 }
@@ -466,7 +469,11 @@ func (in *Interp) writeCheck(o *Obj) {
 		panic(inconclusive("write to frozen (library init) object " + o.what))
 	}
 	if in.ckEpoch > 0 && o.epoch < in.ckEpoch {
-		in.noteSharedWrite(o.what)
+		if in.atomicW > 0 {
+			in.sharedAtomic++
+		} else {
+			in.noteSharedWrite(o.what)
+		}
 	}
 }
 
